@@ -17,6 +17,10 @@ pub enum CollKind {
 pub struct UnitSpec {
     pub cont: ContKind,
     pub leaves: Vec<Lid>,
+    /// the unit holds `&mut` borrows of arena leaves (which keep slots of their own, so the
+    /// listing order is independent of the address order) instead of owning them by value
+    #[serde(default)]
+    pub by_ref: bool,
 }
 
 #[derive(Clone, Copy, PartialEq, Eq, Debug, Serialize, Deserialize)]
@@ -36,6 +40,8 @@ pub enum TSpec {
     Own { kind: OwnKind, cont: ContKind, leaves: Vec<Lid>, ctor: Ctor, poison: bool },
     /// member wrapped in a drop-counting tag
     Tagged(usize, Box<TSpec>),
+    /// a bare container nested as a member (`(A, Vec<B>)`, `[Vec<_>; 2]`, ...): no collection around it
+    Group { cont: ContKind, members: Vec<TSpec> },
     /// a collection built with the unchecked-at-runtime constructors (`new` / `new_ref` /
     /// `From<&L>`) over shared owned data `datas[data]` (a container of `&mut` leaves)
     OnData { data: usize, kind: CollKind, from: bool, poison: bool },
@@ -306,6 +312,15 @@ impl WorldSpec {
                 self.flat_rec(&self.targets[*i], Some(*i), path, &mut np, poison, out);
             }
             TSpec::Tagged(_, inner) => self.flat_rec(inner, root, path, node_path, poison, out),
+            TSpec::Group { members, .. } => {
+                for (i, m) in members.iter().enumerate() {
+                    path.push(i as u8);
+                    node_path.push(i as u8);
+                    self.flat_rec(m, root, path, node_path, poison, out);
+                    node_path.pop();
+                    path.pop();
+                }
+            }
             TSpec::OnData { data, poison: pz, .. } => {
                 if *pz {
                     poison.push(match root {
@@ -382,6 +397,13 @@ impl WorldSpec {
             }
             TSpec::Shared(i) => self.poison_rec(&self.targets[*i], Some(*i), &mut Vec::new(), out),
             TSpec::Tagged(_, inner) => self.poison_rec(inner, root, node_path, out),
+            TSpec::Group { members, .. } => {
+                for (i, m) in members.iter().enumerate() {
+                    node_path.push(i as u8);
+                    self.poison_rec(m, root, node_path, out);
+                    node_path.pop();
+                }
+            }
             TSpec::OnData { data, poison, .. } => {
                 if *poison {
                     out.push(match root {
@@ -423,6 +445,7 @@ impl WorldSpec {
             TSpec::Coll { members, .. } => members.iter().for_each(|m| self.elems_rec(m, out)),
             TSpec::Shared(i) => self.elems_rec(&self.targets[*i], out),
             TSpec::Tagged(_, inner) => self.elems_rec(inner, out),
+            TSpec::Group { members, .. } => members.iter().for_each(|m| self.elems_rec(m, out)),
             TSpec::Own { leaves, .. } => leaves.iter().for_each(|l| out.push(Elem::Leaf(*l))),
             TSpec::OnData { data, .. } => self.datas[*data].leaves.iter().for_each(|l| out.push(Elem::Leaf(*l))),
         }
@@ -447,6 +470,7 @@ impl WorldSpec {
             TSpec::Coll { members, .. } => self.has_dup(t) || members.iter().any(|m| self.any_dup(m)),
             TSpec::Shared(i) => self.any_dup(&self.targets[*i]),
             TSpec::Tagged(_, inner) => self.any_dup(inner),
+            TSpec::Group { members, .. } => members.iter().any(|m| self.any_dup(m)),
             _ => false,
         }
     }
@@ -472,6 +496,7 @@ impl WorldSpec {
             TSpec::Coll { members, .. } => 1 + members.iter().map(|m| self.depth(m)).max().unwrap_or(0),
             TSpec::Shared(i) => self.depth(&self.targets[*i]),
             TSpec::Tagged(_, inner) => self.depth(inner),
+            TSpec::Group { members, .. } => members.iter().map(|m| self.depth(m)).max().unwrap_or(0),
             TSpec::Own { .. } | TSpec::OnData { .. } => 1,
             _ => 0,
         }
